@@ -78,6 +78,32 @@ func NewJSONFamily(em *Emitted) *JSONFamily {
 		}
 		jf.associate(nt, comps[k], byNorm)
 	}
+	// inline response bodies: <Handler>Response<status>JSONBody
+	for _, op := range em.Ref.Ops {
+		for _, r := range op.Responses {
+			if !r.IsJSON || r.Schema == nil {
+				continue
+			}
+			if m, ok := r.Schema.(map[string]any); ok {
+				if _, isRef := m["$ref"]; isRef {
+					continue
+				}
+			}
+			suffix := normName("Response" + r.Status + "JSONBody")
+			cands := []string{normName(op.OperationID), normName(strings.ToLower(op.Method) + op.Template)}
+			for norm, nt := range byNorm {
+				if !strings.HasSuffix(norm, suffix) {
+					continue
+				}
+				prefix := strings.TrimSuffix(norm, suffix)
+				for _, c := range cands {
+					if c != "" && c == prefix {
+						jf.associate(nt, em.Ref.SchemaOf(r.Schema), byNorm)
+					}
+				}
+			}
+		}
+	}
 	return jf
 }
 
